@@ -1,5 +1,6 @@
 import AwsVerif.Proofs.C15.Live
 import AwsVerif.Proofs.C15.Valid
+import AwsVerif.Proofs.C15.Dest
 /-!
 C15 — ring buffer never hands out overlapping memory, in every interleaving.
 
@@ -89,6 +90,28 @@ theorem c15_full_again (N : Nat) (as : List Act) (hN : 1 ≤ N)
     rw [hr.1]; simp
   exact c15_empty_succeeds N _ 0 N hn (by rw [hr.2]; exact hp) hN (Nat.le_refl _)
 
+/-- [A] Frame condition of both acquire forms, in every ring state and for every (possibly stale) tail value
+the acquirer read: a request that is refused (OOM or INVALID_ARGUMENT) leaves the ring — head, tail, outstanding
+buffers — and the caller's `*dest` exactly as they were; a granted request writes exactly the granted buffer to
+`*dest`.  (Callers pass the handle of a still-outstanding buffer as `dest` of requests they expect to fail and
+release that handle later: a refusal that clobbered it would publish a wrong tail.) -/
+theorem c15_refusal_leaves_dest (r : Ring) (t q m : Nat) (d : Dest) :
+    ((∀ o l, (acquireD r t q d).2.1 ≠ .ok o l) → (acquireD r t q d).1 = r ∧ (acquireD r t q d).2.2 = d) ∧
+    ((∀ o l, (acquireUpToD r t m q d).2.1 ≠ .ok o l) →
+        (acquireUpToD r t m q d).1 = r ∧ (acquireUpToD r t m q d).2.2 = d) ∧
+    (∀ o l, (acquireD r t q d).2.1 = .ok o l → (acquireD r t q d).2.2 = (o, l)) ∧
+    (∀ o l, (acquireUpToD r t m q d).2.1 = .ok o l → (acquireUpToD r t m q d).2.2 = (o, l)) := by
+  refine ⟨fun h => ⟨acquireWith_refused r t q h, writeDest_refused d _ h⟩,
+          fun h => ⟨acquireUpToWith_refused r t m q h, writeDest_refused d _ h⟩, ?_, ?_⟩
+  · intro o l h
+    show writeDest d (acquireWith r t q).2 = (o, l)
+    have h' : (acquireWith r t q).2 = .ok o l := h
+    rw [h']; rfl
+  · intro o l h
+    show writeDest d (acquireUpToWith r t m q).2 = (o, l)
+    have h' : (acquireUpToWith r t m q).2 = .ok o l := h
+    rw [h']; rfl
+
 /-- [A] The library's own validity predicate `aws_ring_buffer_is_valid` — `AwsVerif.Gen.Ring.isValid`,
 translated on every run from `include/aws/common/ring_buffer.inl` (with `aws_ring_buffer_check_atomic_ptr`)
 by `gen/ring_gen.py` — is true in every reachable state of every interleaving, wherever the ring's storage
@@ -128,6 +151,12 @@ example :
 example :
     let s := run (Sys.init 8) [.loadTail (.exact 5), .complete, .release]
     s.ring.out = [] ∧ s.pending = none ∧ s.ring.head = 5 := by decide
+
+/-- a refusal in the wrapped state with a live handle as `dest` (the hypothesis of `c15_refusal_leaves_dest`):
+ring of 16, buffers [8,16) and [0,4) outstanding, tail 8, head 4; 4 more bytes are refused and `dest` = (0,4) stays -/
+example :
+    let r : Ring := { N := 16, head := 4, tail := 8, out := [(8, 8), (0, 4)] }
+    acquireUpToD r 8 4 4 (0, 4) = (r, .oom, (0, 4)) := by decide
 
 /-- a refused acquire exists (the size theorems are not about a function that always succeeds) -/
 example : (run (Sys.init 4) [.loadTail (.exact 3), .complete, .loadTail (.exact 2), .complete]).last
